@@ -91,6 +91,33 @@ def run(tier, seed):
                 v.violation(f"output length {ob['outlen']} differs from the fold {pred['outlen']} for {[(f['k'], f['n']) for f in c['frames']]}", dict(rep, obs=ob))
         if len(v.cov["samples"]) < 3 and nontrivial and len(c["frames"]) >= 3:
             v.sample({"frames": c["frames"], "capacity": c["cap"], "predicted": rep["predicted"], "observed": {k: ob[k] for k in ("window", "get", "tools", "outlen")}})
+    # ---- every frame TYPE the system writes (as written by real runs: provider runs, tools, tasks, continuity operations) and its
+    # payload mutants (optional fields absent / null, empty collections, unicode, long strings - all still well-formed frames):
+    # folded into a fresh state and rendered in every mode and overlay; total means no panic for any of them
+    from . import c03
+    tmpv = Verdict("C03", "aux", seed)
+    _, _, corpus, _, _ = c03.judge_scenarios(tmpv, c03.scenarios(), wd, False, tag="corpus")
+    fcases, nfr = [], 0
+    for kind, frames in sorted(corpus.items()):
+        batch = []
+        rich = sorted(frames, key=lambda x: -len(json.dumps(x)))[:(4 if thorough else 1)]      # the frame with most of its optional parts present
+        for fi, fr in enumerate(frames[:1] + [x for x in rich if x is not frames[0]]):
+            batch += [fr] + [m for _, m in c03.mutants(fr)]
+        nfr += len(batch)
+        for k in range(0, len(batch), 40):
+            fcases.append({"id": f"fr-{kind}-{k}", "frames": batch[k:k + 40]})
+    parsed = 0
+    for res in run_harness("surface_frames", fcases, wd, "frames", shards=14, timeout=1800):
+        parsed += res["parsed"]
+        v.add_eval({"frames_case": res["id"]}, res["parsed"] > 0)
+        for pr in res["problems"][:2]:
+            c = [x for x in fcases if x["id"] == res["id"]][0]
+            fr = c["frames"][pr["frame"]]
+            v.violation(f"a well-formed {fr.get('type')} frame makes the surface panic ({pr['what']}{' at ' + json.dumps(pr.get('at')) if pr.get('at') else ''}): {json.dumps(fr)[:600]}",
+                        {"engine": "surface_frames", "frames": [fr]})
+    v.cov["frame_corpus"] = {"types": len(corpus), "frames_and_mutants": nfr, "accepted_by_the_frame_parser": parsed}
+    if parsed < 200:
+        die_tool(f"frame corpus too small ({parsed})")
     v.cov["sequences_rendered_at_all_widths"] = rendered
     v.cov["traces_validated_against_impl"] = len(results)
     v.assumptions += ["rip-cli's headless renderers live in a binary crate and are not reached by this check",
@@ -106,6 +133,13 @@ def replay(path, seed):
         rep = json.load(f)
     case = rep["case"]
     wd = workdir(PROP + "-replay")
+    if case.get("engine") == "surface_frames":
+        res = run_harness("surface_frames", [{"id": "r", "frames": case["frames"]}], wd, "replay")[0]
+        print(json.dumps(res))
+        if res["problems"]:
+            print(f"VIOLATION property={PROP} replay={path}")
+            return 1
+        return 0
     c = dict(case["case"])
     c["render"] = True
     res = run_harness("surface", [c], wd, "replay")[0]
